@@ -137,7 +137,8 @@ def run(ctx):
     thorough = t == "thorough"
     ctx.rule = ("WsWriterCfg: TLC enumerates the sessions of the factored matrix role x compression(level, payload kind) x write buffer x "
                 "API x size class x partition class (single messages), all ordered pairs / triples of a menu of steps with and without "
-                "control frames (multi-message), thorough: all levels, multi-megabyte messages, seeded random partitions, simulated "
+                "control frames, the pings and the close frame written through WriteControl, WriteMessage, NextWriter+Write+Close or a "
+                "prepared message with a control type (multi-message), thorough: all levels, multi-megabyte messages, seeded random partitions, simulated "
                 "5-message sessions; resid: write buffers of every residue modulo 8 (thorough: 1..9, 121..136, 1001, 4095, 4097) x API x "
                 "messages of 2..6 fragments; WsPeer: TLC enumerates every stream of a conformant foreign sender (one message cut at any "
                 "2 (thorough 3) of 14 lengths covering the residues modulo 4 and 8 below and above two machine words, at any 3 (4) of 6 "
@@ -197,6 +198,10 @@ def run(ctx):
     # ... and non-vacuity: with the deviation switched on, NoReject must be violated
     tlc(False, SUB, "MC_WsWire", "MC_WsWire_dev_rsv1_on_continuation.cfg", expect_violation="NoReject")
     tlc(False, SUB, "MC_WsWire", "MC_WsWire_dev_len16_for_125.cfg", expect_violation="NoReject")
+    if not thorough:
+        # (a control frame with RSV1: what a sender makes of a ping it runs through the data path of a compressing connection)
+        tlc(False, SUB, "MC_WsWire", "dev.cfg", name="MC_WsWire.dev_control_rsv1", files={"dev.cfg": _dev_cfg("control-rsv1")},
+            expect_violation="NoReject", workers=2)
     if thorough:
         for d in DEVS:
             tlc(False, SUB, "MC_WsWire", "dev.cfg", name="MC_WsWire.dev_" + d.replace("-", "_"), files={"dev.cfg": _dev_cfg(d)},
